@@ -336,6 +336,12 @@ func (f c18Frame) build(bound [4]byte, hasBound bool, port int) ([]byte, *c18Del
 		fr := refip.Build(5, nil, -1, 17, src, dst, f.SrcPort, dport, f.Payload, pad)
 		fr[0] = 4<<4 | byte(f.Delta%5)
 		return fr, nil
+	case 11: // a consistent IP packet that is too short to hold a UDP header: total length = header + 0..7 octets = frame length
+		fr := refip.Build(ihl, opts, -1, 17, src, dst, f.SrcPort, dport, f.Payload, nil)
+		tl := ihl*4 + f.Delta%8
+		fr = fr[:tl]
+		fr[2], fr[3] = byte(tl>>8), byte(tl)
+		return fr, nil
 	default: // empty payload, exactly header + UDP header
 		return refip.Build(ihl, opts, -1, 17, src, dst, f.SrcPort, dport, nil, pad), &c18Deliver{payload: []byte{}, src: src, sport: f.SrcPort}
 	}
@@ -434,7 +440,7 @@ func genC18Read() *rapid.Generator[c18Read] {
 		}
 		n := rapid.IntRange(1, 30).Draw(t, "nframes")
 		for i := 0; i < n; i++ {
-			f := c18Frame{Kind: rapid.IntRange(0, 10).Draw(t, "kind"), IHL: rapid.SampledFrom([]int{5, 5, 5, 6, 7, 15}).Draw(t, "ihl"),
+			f := c18Frame{Kind: rapid.IntRange(0, 11).Draw(t, "kind"), IHL: rapid.SampledFrom([]int{5, 5, 5, 6, 7, 15}).Draw(t, "ihl"),
 				Payload: gen.Fill(t, rapid.SampledFrom([]int{0, 1, 2, 7, 8, 9, 240, 300, 548}).Draw(t, "plen"), "pl"),
 				Pad:     rapid.SampledFrom([]int{0, 0, 1, 4, 18}).Draw(t, "pad"), Delta: rapid.IntRange(0, 1000).Draw(t, "delta"),
 				Cut: rapid.IntRange(0, 2000).Draw(t, "cut"), SrcIP: rapid.SliceOfN(rapid.Byte(), 4, 4).Draw(t, "sip"), SrcPort: rapid.IntRange(0, 65535).Draw(t, "sp")}
@@ -460,6 +466,9 @@ func TestC18_ReadTruncations(t *testing.T) {
 			nr := base
 			nr.Kind, nr.Delta, nr.Pad = 3, d, 18
 			c18r.one(t, c18Read{BoundPt: 68, Frames: []c18Frame{nr, base}})
+			sh := base
+			sh.Kind, sh.Delta = 11, d
+			c18r.one(t, c18Read{BoundPt: 68, Frames: []c18Frame{sh, base}})
 		}
 	}
 }
